@@ -13,16 +13,19 @@ SYMX_NOTE = ("Trusted base: z3 5.1.0; the symx proxies' str/int semantics, its r
 CHECKS = {
  'C01': dict(
    text="Bounded symbolic execution of the complete real pipeline encoder.encode -> lexer -> strict parser -> decoder "
-        "of the same dialect (PVL, ODL, PDS3, ISIS) on modules of 15 fixed shapes (single/duplicate keys, groups, "
-        "objects, nesting, PDS3 conversion cases incl. duplicate block names, sequences, nested sequences, sets, "
-        "quantities, long sequences/strings that force line wrapping) with ONE symbolic leaf: every string of length "
+        "of the same dialect (PVL, ODL, PDS3, ISIS) on modules of 20 fixed shapes (single/duplicate keys, groups, "
+        "objects, nesting, PDS3 conversion cases incl. duplicate block names and invalid groups below the top level, "
+        "sequences, nested sequences, sets, quantities, sequences of hash-equal elements of different types (1, 1.0, "
+        "True), long sequences/strings that force line wrapping) with ONE symbolic leaf: every string of length "
         "0-2 (quick; 0-3 thorough; 'single' shape one longer) over the dialect's alphabet, an integer |i| <= 10^3/10^6, "
-        "a finite float in positional repr form; 13 encoder configurations (indent, width incl. a SYMBOLIC width in "
-        "[30,100] running the stdlib textwrap on proxies, newline, end-name, delimiter, PDS3 options). Assertion: "
+        "a finite float in positional repr form, dates/times/datetimes with all fields symbolic, strings shaped like "
+        "numbers and times; 14 encoder configurations (indent, width incl. SYMBOLIC widths in [30,100] and in [1,14] - "
+        "every statement longer than the line - running the stdlib textwrap on proxies, newline, end-name, delimiter, "
+        "PDS3 options). Assertion: "
         "encode refuses with ValueError/TypeError, or the strict load equals the spec-side normalisation of the "
         "original (upper-cased parameter names, ODL-family white-space folding, naive->UTC, PDS3 GROUP->OBJECT rule, "
-        "set vs frozenset). Outside: longer strings, more than one symbolic leaf, depth > 2, third-party quantities; "
-        "temporal values are covered by C14.",
+        "set vs frozenset). Outside: longer strings, more than one symbolic leaf, depth > 3, third-party quantities, "
+        "parameter names longer than 3 characters (the name is dropped at small widths instead: D45).",
    ref='5 (C01)', technique='symbolic execution (symx) of encoder+lexer+parser+decoder on a symbolic leaf; z3 decides every branch; bounded'),
  'C02': dict(
    text="The C01 obligations with the reader replaced by pvl.loads(text) with no argument (OmniParser, OmniGrammar, "
@@ -40,9 +43,10 @@ CHECKS = {
         "value = positional sum in linear integer arithmetic; decimal integers and reals of 9-12 shapes with symbolic "
         "sign/digits (reals compared by their text); quoted strings with either quote and 0-2/0-3 symbolic characters "
         "(ODL-family folding in the oracle); unquoted identifier strings; units after int / real / sequence with "
-        "symbolic unit characters and optional space; each in up to 9 contexts (plain, ';' delimited, no spaces, "
-        "between comments, inside sequences/sets/nested sequences, inside a group) so the look-ahead rules run in "
-        "context; block statements with EVERY letter of both keywords in either case (2^k spellings per path set), "
+        "symbolic unit characters and optional space; quoted contents of fixed shapes with every white-space character at "
+        "the marked places (a-WWb, aW-Wb, ...: folding and dash continuation over LF / CR-LF / indented lines); each in "
+        "up to 11 contexts (plain, ';' delimited, no spaces, between comments, inside sequences/sets/nested sequences, "
+        "inside a group, four levels of brackets, three levels of blocks) so the look-ahead rules run in context; block statements with EVERY letter of both keywords in either case (2^k spellings per path set), "
         "optional ';', optional block name on the end statement, nesting. Five loader configurations. Outside: longer "
         "digit strings, several non-trivial values per label, magnitude of reals (text only).",
    ref='5 (C03)', technique='symbolic execution (symx) of lexer+parser+decoder on spelling templates with symbolic parts; spec-side expected values in LIA; z3'),
@@ -60,19 +64,23 @@ CHECKS = {
    text="Bounded symbolic execution of the real parsers (PVL, ODL, PDS3 configurations and the default loader) driven "
         "through their public lexer_fn parameter by a SYMBOLIC TOKEN STREAM: a generator following the documented "
         "send/throw protocol yields, each time the parser pulls, a real Token chosen lazily by a solver variable from "
-        "a 19-lexeme vocabulary (names, '=', integer, quoted string, ';', brackets, comma, units, comment, the block "
-        "keywords, END) or end-of-stream; positions never pulled stay unconstrained. Every stream of at most 6 "
-        "(quick) / 8 (thorough) tokens. Oracle: an independent recogniser/evaluator of the statement grammar written "
+        "a 20-lexeme vocabulary (names, '=', integer, quoted string, ';', brackets, comma, units, malformed units, "
+        "comment, the block keywords, END) or end-of-stream; positions never pulled stay unconstrained. Every stream of "
+        "at most 5 (quick) / 6 (thorough, one obligation per first token) tokens, also after four fixed token prefixes "
+        "(inside a group, after a statement and an open object, two blocks deep). Oracle: an independent recogniser/evaluator of the statement grammar written "
         "from the Blue Book / ODL BNF (no pvl code), extended for the default loader by exactly the missing-value "
         "rule. Assertion: a module is returned only if the reference accepts everything pulled up to END / end of "
         "stream and the module equals the reference's. One known finding (D35) is listed and its class skipped. "
-        "Outside: damage below token level (unterminated quotes/comments: lexer states, C06 char level), longer streams.",
+        "Character level: ten constructs opened by concrete text (quoted string with either quote, comment, units, "
+        "sequence, set, also nested and inside a group) followed by EVERY tail of 0-2 (quick) / 0-4 characters that does "
+        "not close them: the load must raise. Outside: longer streams and tails.",
    ref='5 (C05)', technique='symbolic execution (symx) of the parsers over a lazily chosen symbolic token stream vs an independent recogniser; z3'),
  'C06': dict(
    text="Bounded symbolic execution. (i) Character level: pvl.loads(s, ...) for a FULLY symbolic text s of every "
-        "length 0-3 (quick; default loader 0-2) / 0-4 (0-3) over the dialect's whole alphabet (latin-1 / ASCII / "
+        "length 0-3 (quick; default loader 0-2) / 0-4 (0-3; length 4 as one obligation per class of the first character) over the dialect's whole alphabet (latin-1 / ASCII / "
         "'omni'), five loader configurations: the outcome is a module, LexerError or ParseError. (ii) Token level: the "
-        "C05 stream harness with k <= 5 / 7 tokens: no other exception type escapes, and the number of generator "
+        "C05 stream harness with k <= 5 / 6 tokens, and 3 / 4 tokens after six fixed prefixes (inside a set, a sequence, "
+        "a set in a set, a sequence in a set, after units, inside a group): no other exception type escapes, and the number of generator "
         "operations on a path stays within 40*(k+2) (a progress measure; termination itself is not provable by "
         "bounded execution - a path exceeding the measure or the per-path wall clock is reported). Outside: longer "
         "inputs, recursion-depth exhaustion on deep nesting, mutation of real label files (a fuzzing technique).",
@@ -89,19 +97,23 @@ CHECKS = {
         "allowed. The D35 class (see C05) is assumed away. Outside: corpus files, longer values.",
    ref='5 (C07)', technique='symbolic execution (symx) of loads/dumps/loads/dumps on templates with symbolic parts; z3'),
  'C08': dict(
-   text="Bounded symbolic execution of the real default loader on 12 label templates (top level, inside blocks, first/"
-        "last in a block, before a block, adjacent gaps, with delimiters, with/without END, up to 5 assignments): "
+   text="Bounded symbolic execution of the real default loader on 16 label templates (top level, inside blocks, first/"
+        "last in a block, before a block, adjacent gaps, with delimiters, with/without END, up to 5 assignments, "
+        "comments containing '=' and line ends before/between/directly after the statements, a multi-line quoted "
+        "string before the gaps): "
         "EVERY subset of assignments has its value removed (solver-chosen) and EVERY inter-token gap is a symbolic "
         "member of {blank, TAB, CR, LF}, so pvl's linecount/rfind arithmetic runs on the symbolic text; one path "
         "typically covers all 4^k layouts of a removal pattern. Assertions: every statement present in order, each "
         "gap an empty-string placeholder whose lineno is the 1-based line of its '=' (harness's own sum over the gap "
         "variables), module.errors exactly those lines sorted; strict PVL/ODL/PDS3 parsers raise LexerError/ParseError "
-        "iff some value is missing (fixed layout there). Outside: gaps inside sequences, comments between '=' and "
-        "the next statement, longer labels.",
+        "iff some value is missing (fixed layout there). Four templates also with TWO symbolic characters per gap, so "
+        "CR-LF line ends occur. One known finding (D50: a dash continuation before the gap shifts the line) is listed "
+        "and its class assumed away. Outside: gaps inside sequences, longer labels.",
    ref='5 (C08)', technique='symbolic execution (symx) of OmniParser repair hooks with symbolic layout and removal pattern; z3'),
  'C09': dict(
    text="Bounded symbolic execution of what symbolic execution can reach of this property. (a) loads(label + END + "
-        "symbolic separator + 1-2 (quick) / 1-4 UNCONSTRAINED symbolic characters over the whole Unicode range) "
+        "symbolic separator (white space or ';'; or NUL / ANY character outside the dialect's character set directly "
+        "after END) + 1-2 (quick) / 1-4 UNCONSTRAINED symbolic characters over the whole Unicode range) "
         "through a counting proxy around the real lexer passed as lexer_fn, five loaders: the module equals the bare "
         "label's, the last token pulled is END, and for the strict parsers a non-interference query per path "
         "(PC(t) and not PC(t') unsat for fresh t') shows no decision depended on the tail - which carries over to "
@@ -132,21 +144,26 @@ CHECKS = {
         "copies/pickles), and ONE symbolic mutation (11 kinds, top or nested level) on either side leaves the other "
         "side matching the model. Values are symbolic ints for the two shallow mechanisms; deepcopy/pickle cross the "
         "C boundary, so their values are concrete distinct ints and only shape, keys and the follow-up mutation are "
-        "solver-chosen. Outside: longer containers, deeper nesting.",
+        "solver-chosen. DeepValues: a fixed module with 11 mutable objects at depths 1-4 (list values, lists inside "
+        "Quantities and tuples, nested lists, a set, containers inside containers): after deepcopy / pickle no object is "
+        "shared, and changing a solver-chosen one in place on a solver-chosen side leaves the other side's structural "
+        "snapshot unchanged. Outside: longer containers, deeper nesting.",
    ref='5 (C11)', technique='symbolic execution (symx) of pvl.collections copy paths; bounded shapes, z3 decides every branch'),
  'C12': dict(
    text="Bounded symbolic execution of the real encoders on the C01 module shapes (plus a shape whose PARAMETER NAME "
         "is the symbolic string, for ODL/PDS3) with one symbolic string leaf of length 0-2 (quick) / 0-3 and the C01 "
-        "configurations incl. a symbolic width; the oracle is an independent line-level reader of the symbolic "
+        "configurations incl. symbolic widths ([30,100] and [1,14]); the oracle is an independent line-level reader of the symbolic "
         "output text written from the specifications (no pvl code): character set per dialect, CR-LF discipline, "
         "delimiters, preferred begin/end keywords, block matching with the name iff aggregation_end, indentation "
-        "= level x indent, '=' alignment of sibling assignments that fit on a line, upper-case identifier names "
+        "= level x indent, '=' alignment per block of sibling assignments whose padded form (line end counted) fits on a "
+        "line, upper-case identifier names "
         "<= 30 chars (ODL/PDS3), no TAB (PDS3), symbol strings without format effectors, final END (+ line end). "
         "Outside: the units-only-after-numbers rule is exercised only through encoder refusals, longer leaves.",
    ref='5 (C12)', technique='symbolic execution (symx) of the encoders; independent reader evaluated on the symbolic output; z3; bounded'),
  'C13': dict(
    text="Bounded symbolic execution of encode/dumps called twice on the same module object for the C01 shapes "
-        "(duplicate keys, duplicate block names, groups that are / are not valid PDS groups, nesting) with one "
+        "(duplicate keys, duplicate block names, groups that are / are not valid PDS groups at the top level and below "
+        "it, nesting) with one "
         "symbolic string leaf (length 0-1 quick / 0-2), four encoders, several configurations: both texts identical, "
         "structural snapshots (classes, keys, values, order at every level) before / between / after equal, except "
         "PVLGroup -> PVLObject with identical content at the same position for PDS3; a refusal must not have "
@@ -170,7 +187,8 @@ CHECKS = {
    text="Bounded symbolic execution of the real grammar/lexer/exception code. (a) char_allowed of all five grammars "
         "for ONE symbolic code point over the whole range U+0000-10FFFF against the spec sets: exhaustive, every "
         "path decided by z3. (b) a label template with one symbolic character (alphabet 'omni': U+0000-02FF plus "
-        "selected higher code points) at each of 10 syntactic positions x 5 dialects: LexerError exactly for "
+        "selected higher code points) at each of 17 syntactic positions (incl. after a begin keyword, a block name, an "
+        "end keyword with and without blank, an end-statement block name, inside a sequence, after ';') x 5 dialects: LexerError exactly for "
         "characters outside the set before END, unchanged load for position-neutral characters, error position "
         "attributes consistent with the text. (c) LexerError position arithmetic for every document over {LF,x} up "
         "to length 6 (quick) / 10 (thorough), every pos, lexeme lengths 0-2. Outside: more than one foreign "
@@ -182,7 +200,9 @@ CHECKS = {
         "of the C08 family (every removal pattern, symbolic layout): module, module.errors, exception type and the "
         "attributes afterwards equal those of a fresh instance, so any history reduces to one step; plus explicit "
         "two-call histories (repairing / failing / tail-after-END text first), encoders after an encode that "
-        "succeeded, raised mid-way or converted a PDS3 group (symbolic string leaf), decoders after an earlier "
+        "succeeded, converted a PDS3 group, or raised part-way (at a block value, inside a sequence, an inner sequence, "
+        "a set, a quantity, a nested block) followed by shapes incl. ones a dialect must refuse (3-D sequence, None in "
+        "a sequence, empty inner sequence; symbolic string leaf), decoders after an earlier "
         "decode (every string of length 2), and pvl_validate's shared dialect parsers driven twice. Outside: longer "
         "histories are covered only through the induction; pvl_translate's writers share the encoder obligations.",
    ref='5 (C16)', technique='symbolic execution (symx) from an arbitrary instance state (one inductive step) + two-call histories; z3'),
@@ -216,10 +236,10 @@ CHECKS = {
         "and the block templates with every keyword letter case: both succeed, the (name, value) item sequences are "
         "equal at every level, the classes are PVLModuleNew/PVLGroupNew/PVLObjectNew, and pvl.new.dumps(new) equals "
         "pvl.dumps(old) as strings for the default encoder and the PVL and PDS3 encoders (quick; all four thorough). "
-        "The third-party multidict (pure-Python implementation) executes concretely because names are concrete. "
-        "Outside: ill-formed or repaired text (the statement quantifies over well-formed text; with multidict 6.8 "
-        "the two families diverge on repaired labels - an observation, not a violation), exponent-form reals in the "
-        "dumps comparison.",
+        "Parity harnesses: the 16 C08 templates (every pattern of missing values, symbolic layout) through both loaders - "
+        "same outcome, items, placeholders and errors list; text 'a = x<c> <sep>b = 2<sep>END' with symbolic characters "
+        "through both entry points with the same parser= / grammar= / decoder= arguments (7 combinations). "
+        "The third-party multidict executes concretely because names are concrete. Outside: longer free text.",
    ref='5 (C19)', technique='differential symbolic execution (symx) of pvl.new vs pvl loaders/dumpers on templates with symbolic parts; z3'),
  'C20': dict(
    text="Bounded symbolic execution of the reachable kernels of the two tools. pvl_validate.pvl_flavor on the real "
@@ -229,7 +249,10 @@ CHECKS = {
         "parser/grammar/decoder/encoder classes per dialect: 'loads' <=> that dialect's load succeeds, 'encodes' <=> "
         "dumping the loaded module with that dialect's encoder succeeds. report / report_many / build_line for "
         "EVERY combination of the 5 x (loads, encodes) verdicts (solver-chosen) and 1-3 files against an independent "
-        "rendering of the layout. pvl_translate.formats[F].dump(module, stream) writes exactly pvl.dumps(module, "
+        "rendering of the layout. Fault injection: pvl.loads / pvl.dumps as seen by pvl_flavor replaced by a stub whose "
+        "outcome (returns / LexerError / ParseError / RuntimeError / RecursionError / KeyError / ValueError; dump: "
+        "returns / ValueError / LexerError) and the verbosity 0-3 are solver-chosen: the verdict is (load succeeded, "
+        "dump succeeded or None) and the report is produced. pvl_translate.formats[F].dump(module, stream) writes exactly pvl.dumps(module, "
         "encoder=<F's encoder class>()) for modules with a symbolic string leaf; JSON on concrete modules. NOT "
         "reachable and not claimed: argparse, FileType opening, stdin/stdout, logging text, exit status - main(argv) "
         "is exercised only by the existing tests.",
